@@ -245,8 +245,9 @@ fn one_generated(seed: u64, idx: u64, n_args: usize, spec_quota: usize) -> (Repo
         };
         let pre = pre.expect("hook");
         rep.count("program-pairs");
-        rep.count(&format!("pre-size-{}", size_bucket(wire::term(&pre.term).len())));
-        rep.count(&format!("no-inline-annotations-{}", if format!("{:?}", pre.term).contains("__no_inline__") { "present" } else { "absent" }));
+        let (nodes, markers) = term_stats(&pre.term);
+        rep.count(&format!("pre-size-{}-nodes", size_bucket(nodes)));
+        rep.count(&format!("no-inline-annotations-{}", if markers > 0 { "present" } else { "absent" }));
         let argsets = mini::gen_args(&mut r, &p.module, fi, n_args);
         rep.count(&format!("inputs-per-program-{}", argsets.len()));
         for (ai, args) in argsets.iter().enumerate() {
@@ -263,10 +264,36 @@ fn one_generated(seed: u64, idx: u64, n_args: usize, spec_quota: usize) -> (Repo
 
 fn size_bucket(n: usize) -> &'static str {
     match n {
-        0..=999 => "<1k",
+        0..=99 => "<100",
+        100..=999 => "100-1k",
         1000..=9999 => "1k-10k",
-        10000..=99999 => "10k-100k",
-        _ => ">=100k",
+        _ => ">=10k",
+    }
+}
+
+/// (number of term nodes, number of `__no_inline__` annotation nodes)
+fn term_stats(t: &uplc::ast::Term<Name>) -> (usize, usize) {
+    use uplc::ast::Term;
+    match t {
+        Term::Lambda { parameter_name, body } => {
+            let (n, m) = term_stats(body);
+            (n + 1, m + usize::from(parameter_name.text == "__no_inline__"))
+        }
+        Term::Apply { function, argument } => {
+            let (a, b) = term_stats(function);
+            let (c, d) = term_stats(argument);
+            (a + c + 1, b + d)
+        }
+        Term::Delay(b) | Term::Force(b) => {
+            let (n, m) = term_stats(b);
+            (n + 1, m)
+        }
+        Term::Constr { fields, .. } => fields.iter().map(term_stats).fold((1, 0), |(a, b), (c, d)| (a + c, b + d)),
+        Term::Case { constr, branches } => {
+            let (a, b) = term_stats(constr);
+            branches.iter().map(term_stats).fold((a + 1, b), |(a, b), (c, d)| (a + c, b + d))
+        }
+        _ => (1, 0),
     }
 }
 
